@@ -111,6 +111,23 @@ def D(o):
     return datetime.datetime.fromordinal(o)
 
 
+def R(o, r):
+    """the day with ordinal o carried by the realisation r the specification names (Calendar.tla, Reals)"""
+    d = datetime.datetime.fromordinal(o)
+    if r == 'dt':
+        return d
+    if r == 'tod':
+        return d.replace(hour=1 + o % 23, minute=30)
+    if r == 'date':
+        return d.date()
+    import pandas as pd
+    if r == 'ts':
+        return pd.Timestamp(d)
+    if r == 'tstod':
+        return pd.Timestamp(d) + pd.Timedelta(days=1) - pd.Timedelta(microseconds=1)
+    raise Machinery('unknown realisation %r' % (r,))
+
+
 def _midnight(x):
     return isinstance(x, datetime.datetime) and x.tzinfo is None and (x.hour, x.minute, x.second, x.microsecond) == (0, 0, 0, 0)
 
@@ -130,6 +147,8 @@ def enc(x):
 
 def _call(cal, q):
     op, t, n, u, a = q['op'], q['t'], q['n'], q['u'], q['a']
+    r = q.get('r', 'dt')
+    D = lambda o: R(o, r)
     adj = () if a == '' else (a,)
     kadj = {} if a == '' else {'adj': a}
     if op == 'is_bday':
@@ -220,13 +239,13 @@ def make(cfg, key, how, reg=None):
     return cal
 
 
-def qdict(op, t, n, u, a):
-    return {'op': op, 't': t, 'n': n, 'u': u, 'a': a}
+def qdict(op, t, n, u, a, r='dt'):
+    return {'op': op, 't': t, 'n': n, 'u': u, 'a': a, 'r': r}
 
 
 def case_of(cfg, q, **more):
     c = {'op': q['op'], 'adj': q['a'] or cfg['adj'], 'weekend': cfg['wk'], 'path': 'table' if abs(q['n']) > 1 else 'loop',
-         'n': q['n'], 't': q['t'], 'u': q['u'], 'explicit_adj': q['a'] != '', 'cfg': cfg}
+         'n': q['n'], 't': q['t'], 'u': q['u'], 'explicit_adj': q['a'] != '', 'r': q.get('r', 'dt'), 'cfg': cfg}
     c.update(more)
     return c
 
@@ -246,14 +265,17 @@ def s2c_arith(ctx, lines, k0=0):
             except Exception as e:
                 record(ctx, 'construct', {'op': 'construct', 'kind': 's2c', 'how': how, 'cfg': cfg}, {'observed': type(e).__name__})
                 continue
-            for op, n, u, a, want in line['cases']:
-                q = qdict(op, t, n, u, a)
-                out = ask(cal, q)
-                ctx.evals += 1
-                if not any(out == {'kind': 'val', 'v': w} for w in want):
-                    record(ctx, op, case_of(cfg, q, how=how, kind='s2c'), {'expected_one_of': want, 'observed': out})
-                    if out.get('cls') == 'DidNotTerminate':
-                        break
+            # one session on the one calendar object: the cases, then (the table built) the questions of phase 2
+            for phase, cases in ((1, line['cases']), (2, line['after'])):
+                for op, n, u, a, want, refuse, r in cases:
+                    q = qdict(op, t, n, u, a, r)
+                    out = ask(cal, q)
+                    ctx.evals += 1
+                    if not (any(out == {'kind': 'val', 'v': w} for w in want) or any(out == {'kind': 'exc', 'cls': x} for x in refuse)):
+                        record(ctx, op, case_of(cfg, q, how=how, kind='s2c', phase=phase, beyond=bool(refuse)),
+                               {'expected_one_of': want, 'or_refusal': refuse, 'observed': out})
+                        if out.get('cls') == 'DidNotTerminate':
+                            break
             after = holidays_of(cal)
             if after != {'kind': 'val', 'v': cfg['hol']}:
                 record(ctx, 'registry_reflects_holidays', {'op': 'fetch', 'kind': 's2c', 'how': how, 'cfg': cfg},
@@ -271,13 +293,19 @@ def s2c_arith(ctx, lines, k0=0):
 
 def check_families(lines):
     """vacuity guard on what TLC enumerated (counting only): the families the blind spots were in are all there"""
-    fam = {'end_first': 0, 'end_last': 0, 'single_day': 0, 'backwards': 0, 'passed_adj_table': 0, 'passed_adj_loop': 0}
+    fam = {'end_first': 0, 'end_last': 0, 'single_day': 0, 'backwards': 0, 'passed_adj_table': 0, 'passed_adj_loop': 0,
+           'beyond_before_first': 0, 'beyond_after_last': 0, 'stamp_after_table': 0, 'real_tod': 0, 'real_ts': 0, 'real_tstod': 0, 'real_date': 0}
     for line in lines:
         cfg, t = line['cfg'], line['t']
         if cfg['hol']:
             fam['end_first'] += cfg['hol'][0] == cfg['lo']
             fam['end_last'] += cfg['hol'][-1] == cfg['hi']
-        for op, n, u, a, want in line['cases']:
+        fam['stamp_after_table'] += len(line['after'])
+        for op, n, u, a, want, refuse, r in line['cases']:
+            if r != 'dt':
+                fam['real_' + r] += 1
+            if op == 'add' and refuse:
+                fam['beyond_before_first' if n < 0 else 'beyond_after_last'] += abs(n) > 1
             if op == 'drange':
                 fam['single_day'] += u == t
                 fam['backwards'] += u < t
@@ -344,6 +372,29 @@ def do_event(ev, heap, reg):
         return holidays_of(calendar(key))
     if op in ('Fetch', 'fetch'):
         return holidays_of(calendar(reg.key(ev['k'])))
+    # the caller's own actions on a handle it holds
+    if op in ('SetAdj', 'setadj'):
+        obj, key = heap[ev['o'] - 1]
+        _spell[0] += 1
+        if _spell[0] % 2:
+            obj.adj = ev['adj']
+        else:
+            obj['adj'] = ev['adj']
+        return {'kind': 'val', 'v': obj.adj}
+    if op in ('Copy', 'copy'):
+        import copy
+        obj, key = heap[ev['o'] - 1]
+        _spell[0] += 1
+        heap.append(((Calendar(obj) if _spell[0] % 3 == 0 else obj.copy() if _spell[0] % 3 == 1 else copy.copy(obj)), key))
+        return holidays_of(heap[-1][0])
+    if op in ('CopyKey', 'copyk'):
+        key = reg.key(ev['k'])
+        heap.append((Calendar(calendar(key)), key))
+        return holidays_of(heap[-1][0])
+    if op in ('CopyWith', 'copyw'):
+        obj, key = heap[ev['o'] - 1]
+        heap.append((obj(adj=ev['adj']), key))
+        return holidays_of(heap[-1][0])
     if op in ('Query', 'q'):
         return ask(calendar(reg.key(ev['k'])), ev['q'])
     if op in ('QueryObj', 'qo'):
@@ -376,19 +427,24 @@ def history_case(ev, hist, i):
     regs = [e for e in evs if e.get('p')]
     case['weekend_changed'] = any(e['p']['wk'] for e in regs[1:])
     case['range_changed'] = any(e['p']['lo'] or e['p']['hi'] for e in regs[1:])
+    case['caller_edits'] = sorted(set(e['op'] for e in evs if e['op'].lower() in ('setadj', 'copy', 'copyk', 'copykey', 'copyw', 'copywith')))
     if 'q' in ev:
         q = ev['q']
-        case.update({'query': q['op'], 'n': q['n'], 'path': 'table' if abs(q['n']) > 1 else 'loop', 'explicit_adj': q['a'] != ''})
+        case.update({'query': q['op'], 'n': q['n'], 'path': 'table' if abs(q['n']) > 1 else 'loop', 'explicit_adj': q['a'] != '',
+                     'r': q.get('r', 'dt'), 'beyond': bool(ev.get('refuse'))})
     return case
 
 
 def judge_event(ctx, ev, got, hist, i):
     if 'q' in ev:
-        ok = any(got == {'kind': 'val', 'v': w} for w in ev['want'])
+        ok = any(got == {'kind': 'val', 'v': w} for w in ev['want']) or any(got == {'kind': 'exc', 'cls': x} for x in ev.get('refuse', ()))
         clause = 'registry_query_' + ev['q']['op']
     else:
         ok = got == {'kind': 'val', 'v': ev['want']}
         clause = 'registry_reflects_holidays'
+    elif ev['op'] == 'SetAdj':
+        ok = got == {'kind': 'val', 'v': ev['want']}
+        clause = 'caller_sets_adj'
     if not ok:
         case = history_case(ev, hist, i)
         if repr(case['history']) not in _reported:          # the same failing history is reported once
@@ -420,19 +476,45 @@ def replay_history(ctx, hist, finals=()):
         reg.clean()
 
 
+def flatten(hist):
+    """AskAll(o) / AskAllKey(k) written out as the questions they consist of, in the order TLC printed them"""
+    res = []
+    for ev in hist:
+        if ev['op'] == 'AskAll':
+            res += [{'op': 'QueryObj', 'o': ev['o'], 'q': x['q'], 'want': x['want'], 'refuse': x['refuse']} for x in ev['qs']]
+        elif ev['op'] == 'AskAllKey':
+            res += [{'op': 'Query', 'k': ev['k'], 'q': x['q'], 'want': x['want'], 'refuse': x['refuse']} for x in ev['qs']]
+        else:
+            res.append(ev)
+    return res
+
+
+EDITS = ('SetAdj', 'Copy', 'CopyKey', 'CopyWith')
+
+
 def s2c_registry(ctx, emitted, k0=0):
     for k, e in enumerate(emitted, k0):
         if settled(ctx):
             ctx.assumptions.append('history replay stopped early: calls did not terminate')
             return
-        hist = e['hist']
+        brief = repr([{x: v for x, v in ev.items() if x != 'qs'} for ev in e['hist']])
+        hist = flatten(e['hist'])
         fin = e['finals']
         finals = list(fin['fetch']) + list(fin['query']) + list(fin['queryobj'])
         replay_history(ctx, hist, finals)
         ctx.traces += 1
         ops = [ev['op'] for ev in hist]
         if sum(o.startswith('Register') for o in ops) >= 2 and finals:
-            ctx.note(('hist', repr(hist)))
+            ctx.note(('hist', brief))
+        # a caller's edit after questions were answered, and questions after it
+        asked = [i for i, o in enumerate(ops) if o in ('Query', 'QueryObj')]
+        if asked and any(o in EDITS for o in ops[asked[0]:]) and finals:
+            ctx.note(('hist-edit-after-ask', brief))
+            ctx.extra['histories_with_caller_edit_after_questions'] = ctx.extra.get('histories_with_caller_edit_after_questions', 0) + 1
+        nb = sum(bool(ev.get('refuse')) for ev in hist + finals)
+        ns = sum(ev['q'].get('r', 'dt') != 'dt' for ev in hist + finals if 'q' in ev)
+        ctx.extra['history_questions_beyond_range'] = ctx.extra.get('history_questions_beyond_range', 0) + nb
+        ctx.extra['history_questions_other_realisation'] = ctx.extra.get('history_questions_other_realisation', 0) + ns
         regs = [ev for ev in hist if ev.get('p')]
         for ev in regs[1:]:
             p = ev['p']
@@ -441,9 +523,10 @@ def s2c_registry(ctx, emitted, k0=0):
                               ('only-t1', bool(p['hi']) and not (p['hol'] or p['wk'] or p['lo'])),
                               ('by-object', ev['op'] == 'RegisterObjectWith')):
                 if hit:
-                    ctx.note(('hist-' + name, repr(hist)))
+                    ctx.note(('hist-' + name, brief))
         if k % 299 == 0:
-            ctx.sample({'s2c_registry_history': hist, 'finals': len(finals), 'first_finals': finals[:3]})
+            ctx.sample({'s2c_registry_history': [{x: (v if x != 'qs' else '%d questions, e.g. %r' % (len(v), v[:2])) for x, v in ev.items()} for ev in e['hist']],
+                        'finals': len(finals), 'first_finals': finals[:3]})
 
 
 def dedup(emitted):
@@ -486,6 +569,7 @@ def simulate_histories(ctx, runs, num, depth):
 
 # ---- C2S: random realistic calendars, validated by Trace_Calendar ----------------------------------
 WEEKENDS = [[5, 6], [4, 5], [6], []]
+REALS = ['dt', 'dt', 'dt', 'tod', 'tod', 'ts', 'tstod', 'date']       # how the day of a question is carried into the call
 MARGIN = 130      # holiday-free days at both ends of the range: > 40 business days whatever the weekend
 
 
@@ -559,36 +643,42 @@ def rand_queries(rng, cfg, ends, nq, edge=False):
     def adj():
         return rng.choice(['', '', 'f', 'p', 'm'])
 
-    qs = []
-    for _ in range(nq):
+    def one():
         op = rng.choice(['is_bday', 'is_holiday', 'adjust', 'adjust', 'add', 'add', 'add', 'add', 'dt_bump', 'dt_bump', 'bump0',
                          'bdays', 'bdays_add', 'add_inv', 'add_twice', 'add_split', 'drange', 'drange', 'clock_diff', 'fetch'])
         t = day()
         if op == 'fetch':
-            qs.append(qdict('fetch', 0, 0, 0, ''))
+            return (qdict('fetch', 0, 0, 0, ''))
         elif op in ('is_bday', 'is_holiday'):
-            qs.append(qdict(op, t, 0, 0, ''))
+            return (qdict(op, t, 0, 0, ''))
         elif op == 'adjust':
-            qs.append(qdict(op, t, 0, 0, adj()))
+            return (qdict(op, t, 0, 0, adj()))
         elif op in ('add', 'add_inv', 'bdays_add', 'dt_bump'):
-            qs.append(qdict(op, t, n(), 0, adj()))
+            return (qdict(op, t, n(), 0, adj()))
         elif op == 'add_split':
-            qs.append(qdict(op, t, n() or 2, 0, adj()))
+            return (qdict(op, t, n() or 2, 0, adj()))
         elif op == 'bump0':
-            qs.append(qdict(op, t, rng.choice([-1, 1]), 0, adj()))
+            return (qdict(op, t, rng.choice([-1, 1]), 0, adj()))
         elif op == 'add_twice':
-            qs.append(qdict(op, t, rng.choice([-1, 1]), 0, adj()))
+            return (qdict(op, t, rng.choice([-1, 1]), 0, adj()))
         elif op == 'bdays':
             u = min(b, max(a, t + rng.choice([0, 1, 3, 7, 30, 90, -1, -5, -40, rng.randrange(-200, 201)])))
-            qs.append(qdict(op, t, 0, u, adj()))
+            return (qdict(op, t, 0, u, adj()))
         elif op == 'drange':   # forwards, single-day, both ends adjusting to one day, backwards
             u = min(b, max(a, t + rng.choice([0, 0, 1, 2, 5, 9, 31, 62, -1, -2, -4, rng.randrange(0, 120)])))
-            qs.append(qdict(op, t, 0, u, ''))
+            return (qdict(op, t, 0, u, ''))
         else:  # clock_diff
             u = min(b, t + rng.choice([0, 1, 2, 5, 9, 31, 62, rng.randrange(0, 120)]))
             if rng.random() < 0.4:
                 t, u = u, t
-            qs.append(qdict(op, t, 0, u, ''))
+            return (qdict(op, t, 0, u, ''))
+
+    qs = []
+    for _ in range(nq):
+        q = one()
+        if q['op'] != 'fetch':
+            q['r'] = rng.choice(REALS)
+        qs.append(q)
     return qs
 
 
@@ -611,9 +701,22 @@ def observe_calendar(rng, cfg, qs, edge):
                 pass                                          # the decoy is only a disturbance; the real calendar is judged
         how = 'registry' if (cfg['adj'] == 'm' and rng.random() < 0.6) else 'object'
         events = []
-        base = {'cfg': cfg, 'how': how, 'decoy': decoy, 'edge': 1 if edge else 0}
+        # warm: the object first carries ANOTHER convention and answers questions about the days to come under it (a
+        # disturbance like the decoy); then the caller sets the convention of the configuration and registers the object
+        warm = how == 'object' and rng.random() < 0.5
+        base = {'cfg': cfg, 'how': how, 'decoy': decoy, 'warm': warm, 'edge': 1 if edge else 0}
         try:
-            make(cfg, key, how)
+            if warm:
+                cal = make(dict(cfg, adj=rng.choice([x for x in 'fpm' if x != cfg['adj']])), key, 'class')
+                for q in qs[:40]:
+                    if q['op'] != 'fetch':
+                        ask(cal, dict(q, a=''))
+                if rng.random() < 0.5:
+                    cal = Calendar(cal)
+                cal.adj = cfg['adj']
+                calendar(cal)
+            else:
+                make(cfg, key, how)
         except Exception as e:
             return dict(base, qs=[{'q': qdict('fetch', 0, 0, 0, ''), 'out': {'kind': 'exc', 'cls': type(e).__name__}}])
         hung = 0
@@ -685,7 +788,12 @@ def rand_history(rng, nev):
         return rng.randrange(L1, H1 + 1)
 
     def query(wide):
-        a = rng.choice(['', 'f', 'p', 'm', 'f', 'p'])
+        q = query0(wide)
+        q['r'] = rng.choice(REALS)
+        return q
+
+    def query0(wide):
+        a = rng.choice(['', '', 'f', 'p', 'm', 'f', 'p'])
         t = day()
         if wide:        # a handle whose range has 400 years: loop path only
             op = rng.choice(['is_bday', 'adjust', 'add', 'add', 'add_twice', 'bump0', 'dt_bump'])
@@ -705,36 +813,53 @@ def rand_history(rng, nev):
         u = min(H1, max(L1, t + rng.choice([0, 1, 3, 8, 30, -1, -3])))
         return qdict(op, t, 0, u, a if op == 'bdays' else '')
 
-    evs, heap, reg = [], [], {}      # heap: [key, has t0, has t1]; reg: key -> position of the handle now registered
+    evs, heap, reg = [], [], {}      # heap: [key, has t0, has t1, loose]; reg: key -> position of the handle now registered
     for _ in range(nev):
         r = rng.random()
         k = rng.choice(['a', 'a', 'b', 'c'])
-        if not heap or r < 0.22:
+        loose = [i + 1 for i, h in enumerate(heap) if h[3]]
+        if not heap or r < 0.18:
             p = params(True, False)
-            heap.append([k, bool(p['lo']), bool(p['hi'])]); reg[k] = len(heap)
+            heap.append([k, bool(p['lo']), bool(p['hi']), False]); reg[k] = len(heap)
             evs.append({'op': 'reg', 'k': k, 'p': p})
-        elif r < 0.29:
+        elif r < 0.27:
             p = params(False, False)
-            heap.append([k, bool(p['lo']), bool(p['hi'])])
+            heap.append([k, bool(p['lo']), bool(p['hi']), True])
             evs.append({'op': 'con', 'k': k, 'p': p, 'adj': rng.choice(['f', 'p', 'm'])})
-        elif r < 0.36:
+        elif r < 0.31:
             o = rng.randrange(len(heap)) + 1
             reg[heap[o - 1][0]] = o
+            heap[o - 1][3] = False
             evs.append({'op': 'rego', 'o': o})
-        elif r < 0.56:
+        elif r < 0.44:
             o = rng.choice([rng.randrange(len(heap)) + 1] + list(reg.values()))
             p = params(True, True)
             src = heap[o - 1]
-            heap.append([src[0], src[1] or bool(p['lo']), src[2] or bool(p['hi'])]); reg[src[0]] = len(heap)
+            heap.append([src[0], src[1] or bool(p['lo']), src[2] or bool(p['hi']), False]); reg[src[0]] = len(heap)
             evs.append({'op': 'regw', 'o': o, 'p': p})
-        elif r < 0.6 and reg:
+        elif r < 0.47 and reg:
             evs.append({'op': 'fetch', 'k': rng.choice(sorted(reg))})
-        elif r < 0.93 and reg:
+        # the caller's own actions on a loose handle: another convention, a copy, a copy with another convention
+        elif r < 0.55 and loose:
+            evs.append({'op': 'setadj', 'o': rng.choice(loose), 'adj': rng.choice(['f', 'p', 'm'])})
+        elif r < 0.58 and loose:
+            o = rng.choice(loose)
+            heap.append(heap[o - 1][:3] + [True])
+            evs.append({'op': 'copy', 'o': o})
+        elif r < 0.61 and loose:
+            o = rng.choice(loose)
+            heap.append(heap[o - 1][:3] + [True])
+            evs.append({'op': 'copyw', 'o': o, 'adj': rng.choice(['f', 'p', 'm'])})
+        elif r < 0.65 and reg:
+            k = rng.choice(sorted(reg))
+            heap.append(heap[reg[k] - 1][:3] + [True])
+            evs.append({'op': 'copyk', 'k': k})
+        elif r < 0.84 and reg:
             k = rng.choice(sorted(reg))
             h = heap[reg[k] - 1]
             evs.append({'op': 'q', 'k': k, 'q': query(not (h[1] and h[2]))})
         else:
-            o = rng.randrange(len(heap)) + 1
+            o = rng.choice(loose) if loose and rng.random() < 0.8 else rng.randrange(len(heap)) + 1
             h = heap[o - 1]
             evs.append({'op': 'qo', 'o': o, 'q': query(not (h[1] and h[2]))})
     for k in sorted(reg):
